@@ -364,6 +364,16 @@ func TestC06Dispatch(t *testing.T) {
 			if ptree.Big != nil || ptree.B != nil {
 				ptree.Big, ptree.B, ptree.I = nil, nil, 0
 			}
+			if rapid.IntRange(0, 3).Draw(rt, "standard-tags") == 0 {
+				// opaque content may well use standard tags (a vendor operation that carries a usage mask): Integer items under
+				// the two mask tags, as numbers
+				ptree.Walk(func(n *ttlvref.Node, d int) {
+					if d >= 1 && n.Type == ttlvref.Integer {
+						n.Tag = []int{0x42002C, 0x42008E}[int(n.I&1)]
+					}
+				})
+				labels = append(labels, "mask-tags-in-opaque-content")
+			}
 			ptree.Walk(func(n *ttlvref.Node, d int) {
 				if d >= 1 && n.Type == ttlvref.Structure {
 					nt = true
